@@ -15,7 +15,7 @@ attribution).  A *fixed* entry suppresses nothing.
 import json
 import os
 
-PATH = os.path.join(os.path.dirname(os.path.dirname(os.path.abspath(__file__))), "known_findings.json")
+PATH = os.environ.get("VERIF_FINDINGS") or os.path.join(os.path.dirname(os.path.dirname(os.path.abspath(__file__))), "known_findings.json")
 
 
 def load(prop=None):
